@@ -126,6 +126,7 @@ type Explorer struct {
 	incl     string // why this path is inconclusive ("" = not)
 	jsonToks []*jsonTok
 	hashToks []string
+	digests  []string
 	funcs    map[string]bool
 	asserts  int
 	assertsS int
@@ -536,6 +537,7 @@ func Explore(cfg *Config) *Stats {
 func (e *Explorer) runPath(prefix []bool, wantWitness bool) (completed bool, wit *Witness) {
 	e.prefix, e.pos, e.pc, e.nondets, e.observes, e.nsym, e.steps = prefix, 0, nil, nil, nil, 0, 0
 	e.covers, e.viol, e.incl, e.jsonToks, e.hashToks, e.siblings = map[string]bool{}, nil, "", nil, nil, nil
+	e.digests = nil
 	e.asserts, e.assertsS = 0, 0
 	e.loopCnt = map[ssa.Instruction]int{}
 	e.S.Send("(push 1)")
@@ -549,6 +551,7 @@ func (e *Explorer) runPath(prefix []bool, wantWitness bool) (completed bool, wit
 		goroutines: 1,
 		ex:         e,
 		inited:     map[*ssa.Package]bool{},
+		initing:    map[*ssa.Package]bool{},
 	}
 	if cfg.Trace {
 		i.mode = EnableTracing
@@ -625,4 +628,36 @@ func isTargetRuntimeError(msg string) bool {
 		}
 	}
 	return false
+}
+
+// checkIntRange is the overflow side-obligation for symbolic arithmetic.
+func (e *Explorer) checkIntRange(term string, t types.Type) {
+	b, ok := t.Underlying().(*types.Basic)
+	if !ok || b.Info()&types.IsInteger == 0 {
+		return
+	}
+	bits, signed := intBits(b)
+	var lo, hi string
+	switch {
+	case signed && bits == 64:
+		lo, hi = "(- 9223372036854775808)", "9223372036854775807"
+	case signed && bits == 32:
+		lo, hi = "(- 2147483648)", "2147483647"
+	case signed && bits == 16:
+		lo, hi = "(- 32768)", "32767"
+	case signed && bits == 8:
+		lo, hi = "(- 128)", "127"
+	case bits == 64:
+		lo, hi = "0", "18446744073709551615"
+	case bits == 32:
+		lo, hi = "0", "4294967295"
+	case bits == 16:
+		lo, hi = "0", "65535"
+	default:
+		lo, hi = "0", "255"
+	}
+	r := e.S.CheckWith("(or (< " + term + " " + lo + ") (> " + term + " " + hi + "))")
+	if r != "unsat" {
+		e.inconclusive("symbolic integer arithmetic may overflow its Go type (" + r + ")")
+	}
 }
